@@ -15,6 +15,7 @@ CHECKS = {
   "C02": ("vcheck", "property-based testing: generated (schema, data item) pairs x 3 encodings each, checked against the reference RFC 8610 semantics over the CBOR data model; metamorphic equality across encodings; proptest shrinking", "3/C02"),
   "C04": ("vcheck", "differential testing: generated shared-feature schemas x JSON-model documents, JSON validator vs CBOR validator verdict classes, calls isolated in worker processes; proptest shrinking", "3/C04"),
   "C06": ("vcheck", "property-based testing: grammar-sampled documents, parse->Display->parse round-trip oracle on an independent AST skeleton, idempotence, proptest shrinking", "3/C06"),
+  "C08": ("vcheck", "metamorphic testing: 1-3 composed meaning-preserving refactorings of generated schemas (extract/inline rules, identity generics, generic substitution by hand incl. nested generics, /= and //= increments, sockets, parentheses, renaming, rule order) must keep the verdict of each validator; worker-process isolation; proptest shrinking", "3/C08"),
   "C09": ("vcheck", "metamorphic testing: boolean identities between separate validator runs (choice, .and/.within, .ne/.eq, range forms, occurrence forms, prelude definitions) in four contexts, both validators, worker-process isolation; proptest shrinking", "3/C09"),
   "C10": ("vcheck", "metamorphic testing: permutations of map pairs (CBOR encoding / JSON text) and of disjoint-key schema members must not change the verdict; repeated keys compared with the reference semantics; worker-process isolation; proptest shrinking", "3/C10"),
   "C11": ("vcheck", "differential testing against a reference RFC 8949 decoder: exhaustive enumeration of short byte strings + structured/mutated generated encodings, proptest shrinking", "3/C11"),
